@@ -17,13 +17,47 @@ Definition model (i : input) : obs :=
 
 Definition tev_eqb : tid * cev -> tid * cev -> bool := pair_eqb Nat.eqb cev_eqb.
 
-Definition obs_eqb (a b : obs) : bool :=
-  list_eqb tev_eqb (o_trace a) (o_trace b)
-  && Bool.eqb (o_raised a) (o_raised b)
-  && list_eqb Bool.eqb (o_live a) (o_live b)
-  && list_eqb Nat.eqb (o_stops a) (o_stops b)
-  && Bool.eqb (o_deadlock a) (o_deadlock b)
-  && Bool.eqb (o_sem_free a) (o_sem_free b).
+(* What is compared with the model: the observation as far as the statement fixes it.
+   - The global interleaving of the trace is an artefact of the deterministic scheduler (it shifts as soon as
+     some thread performs one shared operation more or less); the statement speaks about each thread's own
+     events in that thread's order, so the trace is compared thread by thread.  (Mutual exclusion, i.e. how
+     the threads' sections may interleave, is judged by spec_okb on the implementation's trace itself.)
+   - main's own acquire / stop() / release on the caller's result inside the abort handler: how many stop()
+     calls there are and in which order is left open (see Spec.common_okb); they are not compared.
+   - which workers were still alive when run() ended is fixed only for a normal return.
+   - the workers told to stop: the statement demands that every started, not yet joined worker is among them
+     unless a stop() of the caller's result itself raised; order, and whether joined workers are told too, is
+     open.  Compared: the started-and-unjoined workers that were told, as a set in start order; nothing when a
+     stop() of the caller's result raised. *)
+Definition is_main_cg (e : tid * cev) : bool := match e with (0, CG _) => true | _ => false end.
+Definition tproj (t : tid) (tr : list (tid * cev)) : list cev := map snd (filter (fun e => fst e =? t) tr).
+
+Record aobs := {
+  a_threads : list (list cev); a_rest : list (tid * cev); a_raised : bool; a_live : list bool;
+  a_stops : list nat; a_deadlock : bool; a_sem_free : bool }.
+
+Definition alpha (o : obs) : aobs :=
+  let tr := filter (fun e => negb (is_main_cg e)) (o_trace o) in
+  let n := length (spawns (o_trace o)) in
+  {| a_threads := map (fun t => tproj t tr) (seq 0 (S n));
+     a_rest := filter (fun e => n <? fst e) tr;
+     a_raised := o_raised o;
+     a_live := if o_raised o then map (fun _ => false) (o_live o) else o_live o;
+     a_stops := if existsb (fun b => b) (main_stops (o_trace o)) then []
+                else filter (fun w => memb w (o_stops o) && negb (memb w (joins (o_trace o)))) (spawns (o_trace o));
+     a_deadlock := o_deadlock o;
+     a_sem_free := o_sem_free o |}.
+
+Definition aobs_eqb (a b : aobs) : bool :=
+  list_eqb (list_eqb cev_eqb) (a_threads a) (a_threads b)
+  && list_eqb tev_eqb (a_rest a) (a_rest b)
+  && Bool.eqb (a_raised a) (a_raised b)
+  && list_eqb Bool.eqb (a_live a) (a_live b)
+  && list_eqb Nat.eqb (a_stops a) (a_stops b)
+  && Bool.eqb (a_deadlock a) (a_deadlock b)
+  && Bool.eqb (a_sem_free a) (a_sem_free b).
+
+Definition obs_eqb (a b : obs) : bool := aobs_eqb (alpha a) (alpha b).
 
 Definition report := @report input obs model obs_eqb spec_okb findings.
 Definition model_at := @model_at input obs model spec_okb.
